@@ -347,7 +347,8 @@ def jobs(tier, seed):
     if not q:
         two += [(e, b, l, m, True, None) for e in "<>" for b in (False, True) for l in ("dense", "bigmat", "nonbigmat") for m in ((1, 4), (2, 2))]
     combos += two
-    combos += [("<", False, "dense", (2,), False, 2), (">", True, "bigmat", (1,), True, 1), ("<", False, "nonbigmat", (2,), None, 2)]
+    combos += [("<", False, "dense", (2,), False, 2), (">", True, "bigmat", (1,), True, 1), ("<", False, "nonbigmat", (2,), None, 2),
+               (">", False, "bigmat", (4,), True, 1), ("<", True, "nonbigmat", (3,), True, 1), (">", False, "dense", (4,), True, 1)]
     for endian, bit64 in (("<", False), (">", True), ("<", True), (">", False)):
         out.append(H.Job("tall-nonbigmat-%s%s" % (endian, 64 if bit64 else 32), job_bigrow, endian, bit64, "nonbigmat", 65535, weight=5))
         out.append(H.Job("tall-bigmat-%s%s" % (endian, 64 if bit64 else 32), job_bigrow, endian, bit64, "bigmat", 200000, weight=5))
